@@ -501,9 +501,14 @@ fn case(ctx: &ShardCtx, c: &Case, obs: &mut Obs) -> Result<(), String> {
 fn run(ctx: &ShardCtx, rep: &mut Report) {
     MAX_SHRINK_ITERS.store(400, std::sync::atomic::Ordering::Relaxed);
     pt_run(ctx, rep, "session-peer", ctx.budget(100_000, 4_000_000), case_strategy(), |c, o| case(ctx, c, o));
+    pt_run(ctx, rep, "listener", ctx.budget(30_000, 1_500_000), super::c07l::case_strategy(), |c, o| super::c07l::case(c, o));
 }
 
 fn replay(variant: &str, case_json: &Json) -> Result<(), String> {
+    if variant.trim_end_matches("!raw") == "listener" {
+        let c: super::c07l::Case = serde_json::from_value(case_json.clone()).map_err(|e| format!("bad case: {e}"))?;
+        return super::c07l::run_case(&c).map(|_| ());
+    }
     let raw = variant.ends_with("!raw");
     let c: Case = serde_json::from_value(case_json.clone()).map_err(|e| format!("bad case: {e}"))?;
     let split_open = !raw && open_ids_for("C07").iter().any(|o| o == "KF-session-transport-split");
